@@ -59,6 +59,7 @@ struct StepDef {
 struct GenOpts {
     // swarm knobs, drawn per run by the scenario's generate(); all have defaults
     int max_wells = 6, max_steps = 8, max_actions = 2, max_udq = 2;
+    int min_wells = 1;
     bool allow_msw = true, allow_history = true, allow_groups = true;
     bool restart_safe_conditions = false;   // ACTIONX conditions only over quantities a restart restores
     bool nonmidnight = true;                // report steps off midnight (TSTEP fractions, DATES with time)
@@ -71,6 +72,7 @@ struct GenOpts {
     bool rptonly = false, sumthin = false;
     bool date_conditions = true;            // DAY/MNTH/YEAR comparisons in ACTIONX conditions
     bool nested_parens = true;
+    double cond_well_bias = 0;              // > 0: this share of the comparisons are well-pattern comparisons, conditions have 3-6 comparisons and at least one parenthesis pair
     bool weltarg_safe = true;               // see DESIGN 8 (known finding: WELTARG on a defaulted WCONPROD target ignores the deck unit system)
     bool stop_safe = false;                 // every well has >= 2 connections, so that a STOP well can cross-flow and survives a restart as STOP              // more than one parenthesis on one side of a comparison
     sim::Json to_json() const; static GenOpts from_json(const sim::Json& j);
